@@ -799,6 +799,10 @@ def declare_decoder(w):
         raise Unsupported(f"binop Mult on {a.ty!r},{b.ty!r}")
 
     w.call_hooks[("binop", "Mult")] = list_times
+    # `fmt % value` with a value of the serializer's grammar: a tuple value is the argument list (TypeError unless it has one element per directive)
+    # (an instance of a foreign class - VOther - may be a tuple subclass of any length: namedtuples, struct_time ...)
+    w.call_hooks[("fmt", "dt")] = lambda ex, v, ndir, st: z3.Or(z3.And(Val.is_VTuple(v.v), z3.Length(Val.titems(v.v)) != ndir),
+                                                                 z3.And(Val.is_VOther(v.v), z3.FreshConst(z3.BoolSort(), "is_tuple_subclass"))) if v.ty == VAL else None
 
     def call_typetag(ex, callee, args, kwargs, st, sink, node):
         """type_(xs) / type_() for type_ in {tuple, set, frozenset}"""
